@@ -1,4 +1,5 @@
 import TextxVerif.Proofs.TxEmit
+import TextxVerif.Proofs.TxBuild
 import TextxVerif.Tx.Quirk
 import TextxVerif.Proofs.ArpMono2
 /-!
@@ -28,8 +29,10 @@ text, every token table without empty matches, every whitespace configuration
 and every fuel.  Missing from the proved fragment (covered only by the
 correspondence and the direct oracle on generated cases):
 separators, `eolterm`, `#`, predicates, regex matches that can be empty, rule
-references and rule modifiers, the `Comment` rule, and the model construction
-(`Tx.build` vs the object semantics of `Sem`).
+references and rule modifiers, the `Comment` rule.  For the model construction `C01_build_flat_partial` proves
+that the assignment handlers of `process_node` compute the documented assignment semantics for
+objects with primitive attribute values; nested objects, match-rule strings and abstract rules are
+covered by the correspondence and the oracle only.
 -/
 namespace Tx
 open Peg Tx.Sim
@@ -79,6 +82,27 @@ depend on the fuel once it is sufficient, so "the result of the compiled parser"
 theorem C01_verdict_fuel_independent (g : Grammar) (id : Nat) (s : PState) (n m : Nat) (r : Res) (t : PState)
     (hnm : n ≤ m) (h : parse g n id s = (r, t)) (hr : r ≠ .fuel) : parse g m id s = (r, t) :=
   parse_le g hnm id s r t h hr
+
+/-- **Model construction, flat objects.**  `kids`: the children of an object's parse-tree node, each
+standing for a semantic item (`KidsItems`: matches that are not assigned, `?=` that matched, `=` of a
+match, `+=` / `*=` of matches with their separators skipped).  Whenever the mirror of the
+`process_node` loop with its four assignment handlers does not raise, the attributes it computes are
+exactly the left fold of the documented assignment semantics (`Sem.applyAsg`: `=` sets or appends,
+`?=` sets `True`, `+=` / `*=` append) over the items, starting from the same defaults — for every
+order and number of assignments and every fuel.  (Nested objects as values are not covered.) -/
+theorem C01_build_flat_partial (x : BCtx) (specs : List Sem.AttrSpec) (kids : List Val) (items : List Sem.Item)
+    (h : BuildSim.KidsItems x kids items) (f me : Nat) (attrs : List (String × Value)) (st : BSt)
+    (attrs' : List (String × Value)) (st' : BSt) (hok : processKids x f kids me attrs st = .ok (attrs', st')) :
+    attrs' = items.foldl (Sem.applyAsg specs) attrs ∧ st' = st :=
+  BuildSim.processKids_flat x specs kids items h f me attrs st attrs' st' hok
+
+/-- …and the value of every matched token is the same on both sides (base-type conversion,
+`use_regexp_group`). -/
+theorem C01_token_value (x : BCtx) (sx : Sem.Env) (hc : sx.cfg = x.cfg) (hi : sx.input = x.input)
+    (hg : sx.groups = x.groups) (h1 : sx.g1 = x.g1) (nd : CNode)
+    (hk : nd.node.kind = .str ∨ nd.node.kind = .re) (pos len : Nat) :
+    x.termValue nd pos len = sx.tokValue nd.node.rule (nd.node.kind == .re) nd.node.tok nd.text pos len :=
+  BuildSim.termValue_eq_tokValue x sx hc hi hg h1 nd hk pos len
 
 /-! ## non-vacuity: a concrete expression, table, text -/
 
